@@ -1413,6 +1413,47 @@ def check_case(c, res):
     return ok
 
 
+def nonfinite_checks(Pm):
+    """relabelings move numbers, they do not compute with them: inf, -inf and nan components come through unchanged and
+    the elements a relabeling fills in are exact zeros (seeded change C15-L: as_diagonal multiplied by an identity
+    matrix, which turns inf * 0 into nan off the diagonal).  -> list of (case, problem or None)"""
+    out = []
+    vals = np.array([[np.inf, -2., 3.], [1., -np.inf, np.nan], [0., 5., -7.]])
+    for cname in ('Vector', 'Vector3'):
+        for with_deriv in (False, True):
+            v = getattr(Pm, cname)(vals.copy(), np.array([False, False, True]))
+            if with_deriv:
+                v.insert_deriv('t', getattr(Pm, cname)(vals[::-1].copy()))
+            checks = {
+                'as_diagonal': (lambda x: x.as_diagonal(), lambda a: np.stack([np.diag(r) for r in a])),
+                'as_row': (lambda x: x.as_row(), lambda a: a[:, None, :]),
+                'as_column': (lambda x: x.as_column(), lambda a: a[:, :, None]),
+                'to_scalar1': (lambda x: x.to_scalar(1), lambda a: a[:, 1]),
+                'reshape': (lambda x: x.reshape((3, 1)), lambda a: a.reshape(3, 1, 3)),
+                'flip': (lambda x: x[::-1], lambda a: a[::-1]),
+            }
+            for op, (f, ref) in sorted(checks.items()):
+                case = {'kind': 'nonfinite', 'op': op, 'cls': cname, 'deriv': with_deriv}
+                prob = None
+                try:
+                    with warnings.catch_warnings():
+                        warnings.simplefilter('ignore')
+                        r = f(v)
+                    pairs = [(np.asarray(r.values, float), ref(vals))]
+                    if with_deriv:
+                        if 't' not in r.derivs:
+                            prob = 'derivative missing'
+                        else:
+                            pairs.append((np.asarray(r.derivs['t'].values, float), ref(vals[::-1])))
+                    for got, want in pairs:
+                        if prob is None and (got.shape != want.shape or not np.array_equal(got, want, equal_nan=True)):
+                            prob = 'values differ from the relabeled array (non-finite components)'
+                except Exception as e:       # noqa
+                    prob = 'raised %s: %s' % (type(e).__name__, str(e)[:80])
+                out.append((case, prob))
+    return out
+
+
 def run(ctx):
     Pm = P()
     ctx.rule = ('identifier-tagged objects (values = 1 + own flat index, derivative k = 1000(k+1) + ..., generated mask '
@@ -1455,6 +1496,11 @@ def run(ctx):
     for i, c, res in bad:
         badset.add(i)
         ctx.fail(signature(c, res), c, {'impl': res['impl'], 'reference': res.get('ref')}, tie='model-vs-impl')
+    for case, prob in nonfinite_checks(Pm):
+        ctx.note_case(case, True)
+        ctx.count('kind:nonfinite')
+        if prob:
+            ctx.fail({'kind': 'nonfinite', 'op': case['op'], 'cls': case['cls'], 'deriv': case['deriv']}, case, {'problem': prob})
     mism = ctx.coq_eval_shards('cases', HEADER, terms, lambda x: 'mismatches %s' % x, shard=250)
     if mism:
         unexplained = [j for j in mism if idx[j] not in badset]
@@ -1475,6 +1521,15 @@ def run(ctx):
 
 def replay(path):
     Pm = P()
+    d0 = json.load(open(path))
+    if isinstance(d0.get('case'), dict) and d0['case'].get('kind') == 'nonfinite':
+        bad = 0
+        for case, prob in nonfinite_checks(Pm):
+            if case == d0['case']:
+                print(case, '->', prob or 'ok')
+                bad = 1 if prob else 0
+        print('property FAILS on this case' if bad else 'property holds on this case')
+        return bad
     d = json.load(open(path))
     if 'case' not in d:
         print(json.dumps(d, indent=1)[:3000])
